@@ -17,6 +17,19 @@ NRec == Len(Rec)
 Report(law, info, ok) == IF ok THEN TRUE ELSE PrintT("LAWFAIL " \o law \o " " \o ToJson(info))
 Note(tag, info) == PrintT("NOTE " \o tag \o " " \o ToJson(info))
 
+\* A numeric law |a - b| <= rtol * scale + atol.  In calibration mode (CONSTANT Calibrate = TRUE, never in a
+\* registered check) nothing is judged; instead every evaluation whose defect exceeds CalMin of its
+\* tolerance prints "MARGIN <law> <ratio> <info>", which is how the tolerances were calibrated.
+CONSTANT Calibrate
+CalMin == "0.01"
+Chk(law, info, a, b, rtol, scale, atol) ==
+  IF Calibrate
+  THEN LET r == FRatio(a, b, rtol, scale, atol) IN
+       IF FLt(CalMin, r) THEN PrintT("MARGIN " \o law \o " " \o r \o " " \o ToJson(info)) ELSE TRUE
+  ELSE Report(law, info, FClose(a, b, rtol, scale, atol))
+\* the same with the five numbers packed in a tuple
+ChkT(law, info, t) == Chk(law, info, t[1], t[2], t[3], t[4], t[5])
+
 \* counters: function from names to naturals with a growing domain
 Bump(c, name) == IF name \in DOMAIN c THEN [c EXCEPT ![name] = @ + 1] ELSE c @@ (name :> 1)
 BumpBy(c, name, n) == IF name \in DOMAIN c THEN [c EXCEPT ![name] = @ + n] ELSE c @@ (name :> n)
